@@ -107,7 +107,12 @@ const NUM_LEX: &[&str] = &[
     "15", "1.5", "1.", ".5", "1e", "+1", "01", "TRUE", "true", "false", "1e0", "1.5e-3", "1.e+3", ".1E0", "1x5", "x5e1", "1x5e0", "-0",
     "+.5", "-1.", "1e+", "", " 1", "1 ", "0x1F", "INF", "NaN", "1_000", "\u{661}\u{662}", "1,5", "15\n", "1.5.", "1..5", "-", "+", ".",
     "e1", "1E", "1.5E+05", "00.00", "--1", "1e1.5", "True", "0", "1", "a", "15 .", "1;", "tru", "false ",
+    // a valid shorthand form embedded in a longer lexical form (a regex anchored on one side only,
+    // or on one alternative only, would write these bare)
+    "truest", "not false", "true , false", "true ; <tag:q> false", "15x", "x15", "1.5x", "x1.5", "1e0x", "x1e0", "untrue", "falsehood",
 ];
+/// affixes for the generated "embedded shorthand" family
+const AFFIXES: &[&str] = &["x", " ", "est", " , false", " ; <tag:q> 2", "\n", ".", "e", "-", "not ", "0", "+", "E", "true", "1"];
 fn num_dts() -> Vec<String> {
     vec![xsd("integer"), xsd("decimal"), xsd("double"), xsd("boolean"), xsd("float"), xsd("int"), xsd("long"), xsd("nonNegativeInteger"), xsd("unsignedByte"), xsd("string"), "http://x/dt".into()]
 }
@@ -120,6 +125,9 @@ fn literal() -> BoxedStrategy<MT> {
     prop_oneof![
         5 => pick(VALID_SHORT.to_vec()).prop_map(|(d, l)| MT::Lit(l.to_string(), xsd(d))),
         6 => (pick(NUM_LEX.to_vec()), pick(num_dts())).prop_map(|(l, d)| MT::Lit(l.to_string(), d)),
+        2 => (pick(VALID_SHORT.to_vec()), pick(AFFIXES.to_vec()), any::<bool>(), pick(num_dts())).prop_map(|((_, v), a, pre, d)| {
+            MT::Lit(if pre { format!("{a}{v}") } else { format!("{v}{a}") }, d)
+        }),
         2 => crate::gen::lexical(6).prop_map(MT::string),
         1 => (crate::gen::lexical(4), pick(crate::gen::tags())).prop_map(|(l, t)| MT::Lang(l, t)),
         1 => (crate::gen::lexical(4), pick(vec![xsd("integer"), xsd("decimal"), xsd("double"), xsd("boolean"), "http://x/ns#a.b".to_string()])).prop_map(|(l, d)| MT::Lit(l, d)),
